@@ -5,7 +5,8 @@ import SigModel.Spec.Checksum
 Driver for C02.  Ops (tokens; byte strings as `x<hex>`, backends as `<id>:x<secret>`):
 
 * `cfg <compat | -> <b1,b2,… | -> u=<enc "mode;id=url;…">`            backend table of the case; in mode `backends` the urls
-      are the configured ones (stored `'/'`-terminated as `getConfiguredHosts` does)
+      are the configured ones (stored `'/'`-terminated as `getConfiguredHosts` does), in mode `etcd` the urls of the
+      etcd values (stored as given), keys = backend ids
 * `sign <label> <id> <x random> <x body>`                             `CalculateBackendChecksum` under `id`'s secret → `sum x<hex>`; defines reference `label`
 * `req <label|-> <hdr> <x random> <x checksum> <x body> <bodyok> <ct> <len|-> <room> [u=…]`
       one POST /api/v1/room/<room>; hdr = `-` | `?` | `b:<id>` → `<status> t<0|1> <events>`.  `u=` is the literal value of
@@ -32,15 +33,25 @@ structure St where
 def uTok (op : List String) : Option String :=
   (op.find? (hasPrefix "u=")).bind fun t => dec (dropS 2 t)
 
-/-- `mode;id=url;id=url…` of the cfg op. -/
+/-- Entries ordered by backend id (insertion sort, stable). -/
+def insertById (e : Entry) : List Entry → List Entry
+  | [] => [e]
+  | x :: xs => if e.backend.id < x.backend.id then e :: x :: xs else x :: insertById e xs
+
+/-- `mode;id=url;id=url…` of the cfg op.  Mode `backends`: the urls of the configuration file, stored as
+`getConfiguredHosts` shapes them, in configuration order.  Mode `etcd`: the urls of the etcd values, stored as
+`EtcdKeyUpdated` / `CheckValid` leave them, in key order (keys = backend ids). -/
 def parseEntries (bs : List Backend) (u : String) : List Entry :=
   match u.splitOn ";" with
   | mode :: rest =>
-    if mode != "backends" then [] else
-    rest.filterMap fun kv =>
+    if mode != "backends" && mode != "etcd" then [] else
+    let es : List Entry := rest.filterMap fun kv =>
       match kv.splitOn "=" with
-      | id :: r@(_ :: _) => (bs.find? (·.id == id)).map fun b => ⟨b, configUrl ("=".intercalate r).toList⟩
+      | id :: r@(_ :: _) => (bs.find? (·.id == id)).map fun b =>
+          let url := ("=".intercalate r).toList
+          ⟨b, if mode == "etcd" then etcdUrl url else configUrl url⟩
       | _ => none
+    if mode == "etcd" then es.foldr insertById [] else es
   | [] => []
 
 def plainChar (c : Char) : Bool := c.isAlphanum || c == '.' || c == '_' || c == '/' || c == '-'
